@@ -37,6 +37,12 @@ class CallGraph:
                 for cl in t["clos"]:
                     tgt[fn].add(cl)
                     s.sites[cl].append((fn, i))
+                # a function item handed over as a value (`.and_then(Self::parse_timeout)`) is run
+                # by the callee like a closure
+                for a in t.get("a") or ():
+                    if isinstance(a, dict) and a.get("fn") and a["fn"] in prog.bodies:
+                        tgt[fn].add(a["fn"])
+                        s.sites[a["fn"]].append((fn, i))
             # closures constructed in this body but possibly passed around as values
             spawned = set()
             for i, t in b.calls():
